@@ -208,10 +208,17 @@ def classify_lg(case):
     from genjax.extras import state_space as S
 
     f32 = lambda x: np.asarray(x, dtype=np.float32)  # noqa: E731
-    m0, P0, A, Q, Cm, R, Y = (f32(case[k]) for k in ("m0", "P0", "A", "Q", "C", "R", "Y"))
+    m0, P0, A, Q, Cm, R, Y = (np.asarray(case[k], dtype=np.float64) for k in ("m0", "P0", "A", "Q", "C", "R", "Y"))
+    if case.get("units"):
+        # the same model with the state components expressed in different units (z = D x): same observation law, posterior
+        # moments transformed by D - "exact" must not depend on the scaling of the state
+        D = np.diag(np.asarray(case["units"], dtype=np.float64)[: len(m0)])
+        Di = np.linalg.inv(D)
+        m0, P0, A, Q, Cm = D @ m0, D @ P0 @ D, D @ A @ Di, D @ Q @ D, Cm @ Di
+    m0, P0, A, Q, Cm, R, Y = (f32(x) for x in (m0, P0, A, Q, Cm, R, Y))
     T, do = Y.shape
     ds = len(m0)
-    cls = f"{'square' if ds == do else 'nonsquare'}:{'T1' if T == 1 else 'T>1'}"
+    cls = f"{'square' if ds == do else 'nonsquare'}:{'T1' if T == 1 else 'T>1'}" + (":mixed_units" if case.get("units") else "")
     fails, info = [], {"model": "lg", "d_state": ds, "d_obs": do, "T": T}
     d = [x.astype(np.float64) for x in (m0, P0, A, Q, Cm, R)]
     mean_x, mean_y, Sxx, Syy, Sxy = lg_joint(*d, T)
@@ -224,8 +231,15 @@ def classify_lg(case):
         return [(f"lg.raises:{e.sig()}:{cls}", str(e))], info
     fm, fc, sm, sc, lm = (np.asarray(x, dtype=np.float64) for x in (fm, fc, sm, sc, lm))
 
-    def near(a, b, scale):
-        return a.shape == b.shape and bool(np.all(np.abs(a - b) <= 2e-3 * scale + 3e-3 * np.abs(b)))
+    def near(a, b, scale, sd=None):
+        """sd: posterior standard deviations of the components - errors are measured in those units (a component on a small
+        scale is not allowed to hide behind a large one); without it, relative to the global scale as before"""
+        if a.shape != b.shape:
+            return False
+        if sd is None:
+            return bool(np.all(np.abs(a - b) <= 2e-3 * scale + 3e-3 * np.abs(b)))
+        unit = sd if a.ndim == 1 else np.outer(sd, sd)
+        return bool(np.all(np.abs(a - b) <= 5e-3 * unit + 2e-5 * np.abs(b)))
 
     ref_lm = float(ss.multivariate_normal.logpdf(y, mean_y, Syy, allow_singular=False))
     if not abs(float(lm) - ref_lm) <= 2e-3 + 2e-4 * abs(ref_lm) * 5:
@@ -234,18 +248,21 @@ def classify_lg(case):
     scale_c = 1.0 + np.abs(Sxx).max()
     for t in range(T):
         xs = list(range(t * ds, (t + 1) * ds))
+        units = bool(case.get("units"))
         m, P = condition(mean_x, mean_y, Sxx, Syy, Sxy, y, xs, list(range((t + 1) * do)))
-        if not near(fm[t], m, scale_m):
+        sd = np.sqrt(np.diag(P)) if units else None
+        if not near(fm[t], m, scale_m, sd):
             fails.append((f"lg.filter_mean:{cls}", f"t={t}: {fm[t].tolist()} != {m.tolist()}"))
             break
-        if not near(fc[t], P, scale_c):
+        if not near(fc[t], P, scale_c, sd):
             fails.append((f"lg.filter_cov:{cls}", f"t={t}: {fc[t].tolist()} != {P.tolist()}"))
             break
         m, P = condition(mean_x, mean_y, Sxx, Syy, Sxy, y, xs, list(range(T * do)))
-        if not near(sm[t], m, scale_m):
-            fails.append((f"lg.smoother_mean:{cls}", f"t={t}: {sm[t].tolist()} != {m.tolist()}"))
+        sd = np.sqrt(np.diag(P)) if units else None
+        if not near(sm[t], m, scale_m, sd):
+            fails.append((f"lg.smoother_mean:{cls}", f"t={t}: {sm[t].tolist()} != {m.tolist()} (posterior sd {np.sqrt(np.diag(P)).tolist()})"))
             break
-        if not near(sc[t], P, scale_c):
+        if not near(sc[t], P, scale_c, sd):
             fails.append((f"lg.smoother_cov:{cls}", f"t={t}: {sc[t].tolist()} != {P.tolist()}"))
             break
     # step model iterated == joint density of (x, y)
@@ -405,6 +422,8 @@ def cases():
         _, mean_y, _, Syy, _ = lg_joint(*d, T)
         Y = np.random.default_rng(key).multivariate_normal(mean_y, Syy).reshape(T, do)
         case["Y"] = Y.round(3).tolist()
+        if ds >= 2 and draw(st.integers(0, 2)) == 0:
+            case["units"] = draw(st.sampled_from([[30.0, 0.03, 1.0], [0.02, 20.0, 1.0], [1.0, 50.0, 0.05]]))
         return case
 
     @st.composite
@@ -450,7 +469,7 @@ def run_shard(ctx):
         else:
             fails, info = classify_lg(case)
             nt = info["T"] >= 2 and info["d_state"] != info["d_obs"]
-            cls = ["C20.lg", f"C20.lg_{'square' if info['d_state'] == info['d_obs'] else 'nonsquare'}", f"C20.lg_T{'1' if info['T'] == 1 else '>1'}"]
+            cls = ["C20.lg", f"C20.lg_{'square' if info['d_state'] == info['d_obs'] else 'nonsquare'}", f"C20.lg_T{'1' if info['T'] == 1 else '>1'}"] + (["C20.lg_mixed_units"] if case.get("units") else [])
         ctx.case(case, nt, cls, sample={**case, "info": info})
         for b, w in fails:
             ctx.fail(b, w, case)
